@@ -37,6 +37,7 @@ ASSUMPTIONS = [
     "float32 features: the residuals of score_feature_matrix are single-precision quantities (tolerance 100 eps_32); distances stay double because the target is",
 ]
 RULE = RULE + " " + forms.RULE_SUFFIX
+RULE = RULE + " " + "Queries come in their own container (C / Fortran / strided / read-only / list / negative strides / big-endian); one case in 320 is a hull over 66000-72000 samples in 2-3 hull dimensions judged by 'no training sample below the hull', zero distance of the selected samples and 300 directional extremes."
 
 
 def gen(rng, tier, index):
